@@ -711,6 +711,12 @@ func specDeref(o Object) Object {
 	return o
 }
 
+// specIsBoxed: the slot holds a captured (boxed) local.
+func specIsBoxed(o Object) bool {
+	_, ok := o.(*ObjectPtr)
+	return ok
+}
+
 // specReturnBase: where RETURN leaves its value: below the frame's base
 // pointer (frame 0 has base pointer 0 and returns into the slot above its locals).
 func specReturnBase(bp, numLocals int) int {
